@@ -156,6 +156,12 @@ func c11Scenarios(thorough bool) []streamScenario {
 			out = append(out, streamScenario{Producers: [][]int{{a}, {(a + 2) % 3, a}}, AsBuffer: asBuf, FailAfter: -1, Bound: -1, ShutAt: -1})
 		}
 	}
+	// transaction id 0 on everything submitted (typed values and pre-encoded buffers)
+	for _, asBuf := range []bool{false, true} {
+		out = append(out, streamScenario{Producers: [][]int{{0, 1, 0, 2}}, ZeroXid: true, AsBuffer: asBuf, FailAfter: -1, Bound: -1, ShutAt: -1},
+			streamScenario{Producers: [][]int{{1, 0}, {2}}, ZeroXid: true, AsBuffer: asBuf, FailAfter: -1, Bound: -1, ShutAt: -1},
+			streamScenario{Producers: [][]int{{0, 0}}, ZeroXid: true, Reuse: true, AsBuffer: asBuf, FailAfter: -1, Bound: -1, ShutAt: -1})
+	}
 	// a peer that reads slowly: the writer is held at every write while the producers keep submitting
 	// (40 and 2 x 24 small messages, one producer mixing sizes); default order of that policy plus
 	// every single departure from it
@@ -351,7 +357,7 @@ func c11(r *ev.Run, replay string) {
 	r.Set("states", n)
 	r.Set("traces_validated_against_impl", r.Counter("schedules"))
 	r.Set("evaluations", r.Counter("schedules"))
-	lv := "1 producer x 12 bodies; 2 producers x all unordered pairs of the 12 bodies of 1..2 messages over {echo request, flow-mod, 1514-byte packet-out}; 3 producers x all multisets of single messages; the same object (typed value or pre-encoded util.Buffer) submitted two and three times, alone and next to a second producer: all interleavings of producers, writer and the idle stream goroutines, state-cached, no preemption bound"
+	lv := "1 producer x 12 bodies; 2 producers x all unordered pairs of the 12 bodies of 1..2 messages over {echo request, flow-mod, 1514-byte packet-out}; 3 producers x all multisets of single messages; the same object (typed value or pre-encoded util.Buffer) submitted two and three times, alone and next to a second producer; messages with transaction id 0: all interleavings of producers, writer and the idle stream goroutines, state-cached, no preemption bound"
 	if r.Thorough() {
 		lv += "; 3 producers x 2 messages each"
 	}
